@@ -3,4 +3,5 @@ INVARIANT NodeExact
 INVARIANT NoExtrapolation
 INVARIANT Bounded
 INVARIANT SymbolicMass
+INVARIANT LayoutIrrelevant
 CHECK_DEADLOCK FALSE
